@@ -309,6 +309,10 @@ theorem idsAreRows_vertices_iff (vs : List (Vertex α)) :
     idsAreRows (vs.map Vertex.vertexId) = true ↔ VertexRowIds vs := by
   simp only [idsAreRows, idsAreRowsFrom_iff, List.length_map, List.getElem_map, Nat.zero_add, VertexRowIds]
 
+theorem endpointsWithin_iff (es : List (Edge α)) (n : Nat) :
+    endpointsWithin es n = true ↔ EndpointsBelow es n := by
+  simp [endpointsWithin, EndpointsBelow, List.all_eq_true]
+
 theorem decodeRows_eq_ok {ρ : Type} (rows : List (Row ρ)) (l : List ρ) (h : decodeRows rows = .ok l) :
     rows = l.map Row.ok := by
   induction rows generalizing l with
